@@ -153,7 +153,7 @@ impl ForeignSpec {
             sig: self.signature,
             sig_ex: false,
             docsum: self.docsummary,
-            pool_slots: None,
+            pool_slots: if self.long_refs { None } else { Some(65535) },
         };
         let catalog_sorted = !self.shuffle_catalog;
         let mk = |cols: Vec<ColSpec>, rows: Vec<Vec<Val>>| TableM {
